@@ -166,7 +166,7 @@ impl Check for C06 {
                 let mech_tags: Vec<&str> = if !bogus.is_empty() && bogus_all_by_mechanism && conflict_table { vec!["valid_only_with_reductions_under_real_lookahead", "table_has_resolved_conflicts"] } else { vec![] };
                 let rc_cost = *rep_costs.iter().next().unwrap();
                 let min_tok = *costs.iter().min().unwrap_or(&1) as u32;
-                if (rc_cost / min_tok.max(1)) > 6 || rc_cost > 2000 {
+                if (rc_cost / min_tok.max(1)) > 9 || rc_cost > 2600 {
                     out.inconclusive("reported cost beyond the reference search's bound");
                     continue;
                 }
@@ -205,7 +205,18 @@ impl Check for C06 {
                                 out.violate("extra-repair-not-valid", &mech_tags, format!("{} reported sequence(s) do not repair under plain replay, e.g. [{}]", extra_bogus.len(), pp_seq(&b.grm, extra_bogus[0])), edetail(String::new()));
                             }
                             if !missing.is_empty() {
-                                let mtags: Vec<&str> = if !mech_tags.is_empty() { vec!["error_also_has_sequences_valid_only_with_reductions_under_real_lookahead", "table_has_resolved_conflicts"] } else { vec![] };
+                                let mut mtags: Vec<&str> = if !mech_tags.is_empty() { vec!["error_also_has_sequences_valid_only_with_reductions_under_real_lookahead", "table_has_resolved_conflicts"] } else { vec![] };
+                                if mtags.is_empty() && conflict_table {
+                                    // no such sequence was REPORTED; but was each missing one merged, inside the search,
+                                    // with one (and dropped with it when the merged group was ranked)?
+                                    let verdicts: Vec<Option<bool>> = missing.iter().map(|m| merged_with_search_only_sequence(b, &rc.st, &toks, &cx.cfg, cx.pos, &cost, m, 400_000)).collect();
+                                    if verdicts.iter().all(|v| *v == Some(true)) {
+                                        mtags = vec!["each_missing_sequence_merges_with_a_sequence_valid_only_with_reductions_under_real_lookahead", "table_has_resolved_conflicts"];
+                                    } else if verdicts.iter().all(|v| *v != Some(false)) {
+                                        out.inconclusive("repairs missing on a conflict-resolved table; the enumeration deciding whether the known search/replay divergence explains them hit its node cap");
+                                        continue;
+                                    }
+                                }
                                 out.violate("missing-repair", &mtags, format!("{} minimum-cost repair(s) with best reach are not reported, e.g. [{}]", missing.len(), pp_seq(&b.grm, missing[0])), edetail(format!("reference set: {}", refset.iter().map(|s| pp_seq(&b.grm, s)).collect::<Vec<_>>().join(" | "))));
                             }
                             if !extra.is_empty() {
